@@ -185,3 +185,35 @@ Print Assumptions c01_full_example_roundtrip.
 Print Assumptions c01_bytes_key_in_any.
 Print Assumptions c01_roundtrip_full_refuted.
 Print Assumptions c01_refuted_outside_domain.
+
+(* ---- sb.Tuple / sb.TypedTuple as targets (tuple.go; Model/Tuples.v on top of the unmarshal model, compared with
+   the code by the tuples correspondence family) ---- *)
+From SbModel Require Import Model.Tuples Proofs.TuplesP.
+
+(* a typed tuple read from the canonical streams of its items gives the items back, in normal form, whatever follows *)
+Theorem c01_typed_tuple_roundtrip : forall pf o R types vals body rest f,
+  all_ok types vals -> marshal_all types vals = Ok body -> (2 * vsize_all vals + 2 < f)%nat ->
+  typed_tuple_unm pf f o R types [] (T KTuple VNone :: body ++ T KTupleEnd VNone :: rest)
+    = Ok (items_of types (map2_normal types vals), rest).
+Proof. exact typed_tuple_roundtrip. Qed.
+
+(* a typed tuple with an empty target accepts what a func-typed target of the unmarshal model accepts, with the same
+   values: every theorem about `unm` on TFunc carries over to sb.TypedTuple *)
+Theorem c01_typed_tuple_is_func : forall pf f o R types cur ts items rest,
+  Forall (fun t => t <> TAny) types -> (length types <= 50)%nat ->
+  typed_tuple_unm pf f o R types [] ts = Ok (items, rest) ->
+  unm pf (S f) o R (TFunc types) cur ts =
+    Ok (GFunc (Some (map (fun d => match d with Some (_, v) => v | None => GAny None end) items)), rest).
+Proof. exact typed_tuple_is_func. Qed.
+
+(* a plain tuple with an empty target reads what the schema-less target reads on a Tuple token *)
+Theorem c01_tuple_is_any : forall pf f o R ts items rest,
+  tuple_unm pf f o R [] ts = Ok (items, rest) -> (length items <= 50)%nat ->
+  unm pf (S f) o R TAny (GAny None) ts =
+    Ok (GAny (Some (TFunc (map (fun d => match d with Some (t, _) => t | None => TAny end) items),
+                    GFunc (Some (map (fun d => match d with Some (_, v) => v | None => GAny None end) items)))), rest).
+Proof. exact tuple_unm_is_any. Qed.
+
+Print Assumptions c01_typed_tuple_roundtrip.
+Print Assumptions c01_typed_tuple_is_func.
+Print Assumptions c01_tuple_is_any.
